@@ -60,6 +60,18 @@ def getExpArg (j : Json) (k : String) : Except String ExpArg :=
   | .ok v => expArgOfJson v
   | .error _ => pure .none
 
+/-- scale_axis as Python hands it over: null | int | [int, ...] (negative ints allowed) -/
+def axisArgOfJson (j : Json) : Except String AxisArg :=
+  match j with
+  | .null => pure .none
+  | .arr a => do pure (.many (← a.toList.mapM fun v => v.getInt?))
+  | v => do pure (.one (← v.getInt?))
+
+def getAxisArg (j : Json) (k : String) : Except String AxisArg :=
+  match j.getObjVal? k with
+  | .ok v => axisArgOfJson v
+  | .error _ => pure .none
+
 def xsteOf (j : Json) : Except String (List Rat) :=
   match j.getObjVal? "xste" with
   | .ok _ => getRatList j "xste"
@@ -67,10 +79,13 @@ def xsteOf (j : Json) : Except String (List Rat) :=
 
 def binOpOfJson (j : Json) : Except String (BinOp × Option (List Rat)) := do
   match ← getStr j "k" with
-  | "call" => pure (.call (← getNatList j "shape") (← getRatList j "x"), some (← xsteOf j))
+  | "call" =>
+    let np := match j.getObjVal? "np" with | .ok (.bool true) => true | _ => false
+    if np then pure (.callNp (← getNatList j "shape") (← getRatList j "x"), some (← xsteOf j))
+    else pure (.call (← getNatList j "shape") (← getRatList j "x"), some (← xsteOf j))
   | "set_alpha" => pure (.setAlpha (← getArg j "v"), none)
   | "set_use01" => pure (.setUse01 (← getBool j "v"), none)
-  | "set_axis" => pure (.setAxis (← getAxis j "sa") (← getEps j "eps"), none)
+  | "set_axis" => pure (.setAxis (← getAxisArg j "sa") (← getEps j "eps"), none)
   | "set_bounds" => pure (.setBounds (← getExpArg j "mn") (← getExpArg j "mx"), none)
   | "set_trainable" => pure (.setTrainable, none)
   | "set_format" => pure (.setFormat (← getBool j "ch_last"), none)
@@ -131,7 +146,7 @@ def handle (j : Json) : Except String Json := do
   | "bin_hist" =>
     -- one live binary / stochastic_binary(inference) object and a history of operations on it
     let o ← j.getObjVal? "obj"
-    let a : BinAttrs := { use01 := ← getBool o "use01", alpha := ← getArg o "alpha", sa := ← getAxis o "sa",
+    let a : BinAttrs := { use01 := ← getBool o "use01", alpha := ← getArg o "alpha", sa := ← getAxisArg o "sa",
                           eps := ← getEps o "eps", minE := ← getExpArg o "min_e", maxE := ← getExpArg o "max_e" }
     let st0 : BinSt := { env := { chLast := ← getBool j "ch_last" }, obj := BinObj.new a, outs := [] }
     let opsJ ← (← j.getObjVal? "ops").getArr?
